@@ -1240,7 +1240,7 @@ class Distributions(object):
                 radial dependences of the :math:`\cos^n \theta` terms, ordered
                 from the lowest to the highest power
             """
-            return self.cn
+            return self.cn.copy()  # (not the internal array itself)
 
         def rcos(self):
             """
